@@ -12,7 +12,8 @@ Report(tag, cls) == PrintT(<<tag, l, cls>>)
 Judge(ok, cls) == IF ok THEN TRUE ELSE Report("VERDICT", cls)
 Drift(ok, cls) == IF ok THEN TRUE ELSE Report("DRIFT", cls)
 IsEvent(e) == l <= Len(TraceLog) /\ TraceLog[l].ev = e /\ l' = l + 1
-Supported == {"gzip", "deflate", "br"}
+\* content-coding names are case-insensitive: "GZIP" and "Br" declare gzip and br
+Supported == {"gzip", "deflate", "br", "GZIP", "Br"}
 HasBad(doc) == \E i \in 1..Len(doc) : \E j \in 1..Len(doc[i].us) : doc[i].us[j] = "~!~"
 \* documents prone to the known chunk dependence of C03
 DeclWithMarkup(doc) == \E o \in 1..Len(doc) : doc[o].k = "copen" /\ \E x \in (o + 1)..Len(doc) : doc[x].k \in TagLike
